@@ -306,6 +306,12 @@ def gen_C14(g, tier):
         x = g.rats(3)
         cs.append(Case('o.c14.basis %d %s %s' % (len(seq), ' '.join(seq), frs(x)), 'orc', 'basis-sequence-refused-setting', check=small_abs(1e-13, x)))
         cs.append(Case('basis.obj %d %s %s' % (len(seq), ' '.join(seq), frs(x)), 'cmp', 'basis-sequence-refused-setting'))
+    # two objects used in turn (settings repeated across objects, copies of the same angles)
+    for _ in range(8 if tier == 'quick' else 200):
+        pool = [g.choice(bas)[1] for _ in range(3)]
+        steps = []
+        for _ in range(g.randint(2, 8)): steps.append('%d %s' % (g.randint(0, 1), g.choice(pool)))
+        cs.append(Case('o.c14.twoobj %d %s %s' % (len(steps), ' '.join(steps), frs(g.rats(3))), 'orc', 'two-objects-interleaved'))
     # successive elliptical settings that share one of the two angles (a setting must take effect whatever the previous one was)
     def ell(o, e): return 'ell %s %s %s' % (dhex(o), dhex(e), ' '.join(dhex(x) for x in (math.cos(2.0 * o), math.sin(2.0 * o), math.cos(2.0 * e), math.sin(2.0 * e))))
     for _ in range(6 if tier == 'quick' else 200):
